@@ -3,7 +3,7 @@ the controlled scheduler (vlib/detsched.py), and the history checkers that the
 monitors C04 - C07 apply to the recorded event logs.
 
 A scenario is a plain dict (JSON-able):
-    entry   stp | lpm | pf1 | pft | parmap | chain
+    entry   stp | lpm | pf1 | pft | parmap | chain | chainmid
     n, b, w numbers of examples, buffer size, workers
     key     iterate .items() instead of values (dataset entries only)
     stop    ['exhaust'] | ['close', k] | ['drop', k] | ['throw', k]
@@ -22,8 +22,8 @@ import collections
 from . import detsched as D
 from .common import import_lazy_dataset, stable_hash
 
-ENTRIES = ('stp', 'lpm', 'pf1', 'pft', 'parmap', 'chain')
-POOL_ENTRIES = ('lpm', 'pft', 'parmap', 'chain')
+ENTRIES = ('stp', 'lpm', 'pf1', 'pft', 'parmap', 'chain', 'chainmid')
+POOL_ENTRIES = ('lpm', 'pft', 'parmap', 'chain', 'chainmid')
 
 
 class UserExc(Exception):
@@ -242,6 +242,9 @@ def make_body(sc, e, raised_objs):
                     ds = ds.map(fn, num_workers=w, buffer_size=b, backend='t')
                 elif entry == 'chain':
                     ds = ds.map(fn).prefetch(w, max(b, w), 't').prefetch(1, b)
+                elif entry == 'chainmid':
+                    # the mapped function sits BETWEEN two prefetching stages
+                    ds = ds.prefetch(w, max(b, w), 't').map(fn).prefetch(1, b)
                 else:
                     raise ValueError(entry)
                 if sc.get('path'):
@@ -600,7 +603,7 @@ def judge_readahead(sc, r, res, inflight=0):
     res.maximum(f'pulled_minus_delivered:{key}', mp)
     if sc['entry'] != 'stp':
         res.maximum(f'started_minus_delivered:{key}', ms)
-    if sc['entry'] == 'chain':
+    if sc['entry'] in ('chain', 'chainmid'):
         # two buffering stages in a row: the bounds add up
         lim_p = (max(b, sc.get('w', 1)) + 2) + (b + 2)
         lim_s = max(b, sc.get('w', 1)) + (b + 2)
